@@ -342,11 +342,16 @@ def run_sat(ob, gb, wd, solver, cancel, want_witness):
         cmd += ["--cvc5"]
     elif solver == "cvc5int":
         cmd += ["--cvc5", "--slice-formula"]
-    env = None
+    env = dict(os.environ)
+    # temporary files of the back end (cbmc writes the CNF for an external SAT solver to $TMPDIR and leaves it there when
+    # the run is cancelled: 14 GB had piled up in /tmp) go into the obligation's work directory, which is removed afterwards
+    tmpd = os.path.join(wd, "tmp." + solver)
+    os.makedirs(tmpd, exist_ok=True)
+    env["TMPDIR"] = tmpd
     if solver == "cvc5int":
-        env = dict(os.environ)
         env["PATH"] = os.path.join(VERIF, "engine", "shim-cvc5int") + ":" + env["PATH"]
     p = Proc(cmd, out, ob.get("timeout", 120), cancel, env=env).run()
+    shutil.rmtree(tmpd, ignore_errors=True)
     o.wall, o.rss_mb = p.wall, p.rss_mb
     o.solver_s = solver_seconds(out)
     if p.timed_out:
